@@ -49,6 +49,10 @@ def seeded_table():
                 how = "YES: " + "; ".join(sorted(kinds))
             else:
                 how = "**MISSED** (rc=%s)" % r.get("rc")
+            if pid != m.get("property", pid):
+                how += f" — by the {pid} check (the change is in {pid}'s code)"
+        if m.get("verif_note"):
+            how += " — " + str(m["verif_note"])
         def cl(x): return re.sub(r"\s+", " ", str(x)).replace("|", "/")[:170]
         rows.append(f"| {name} | {m.get('property', c.get('property'))} | {cl(m.get('what_changed', ''))} | {cl(m.get('needs_to_manifest', ''))} | "
                     f"{c.get('tests_pass_with_change')} | {c.get('demo_fails_with_change')} / {c.get('demo_passes_without')} | {how} |")
